@@ -198,6 +198,7 @@ fn main() {
                 }
             };
             crash::install(fam.name, 1);
+            let trace: Option<String> = std::env::var("REPLAY_TRACE").ok();
             let mut n: u64 = 0;
             let mut failed: Option<Value> = None;
             (fam.cases)(&mut |case: Value| {
@@ -205,6 +206,10 @@ fn main() {
                     return false;
                 }
                 n += 1;
+                if let Some(path) = &trace {
+                    // written BEFORE the case runs: if the process hangs or dies, the file names the case
+                    let _ = std::fs::write(path, serde_json::json!({"family": fam.name, "case": case}).to_string());
+                }
                 if let Err(fail) = run_guarded(fam, &case) {
                     failed = Some(report(fam.name, &case, &fail));
                     return false;
